@@ -75,10 +75,22 @@ Oracle (independent of the model), through the real SmartServerRequestHandler in
 Findings: the VFS breakout ('..%2Fcanary', '%%32E%%32E/canary') found by this check was
 fixed by `fix:` commit 3cca92d; it has no family any more and is a plain VIOLATION if it
 returns.  The jail-url-* families (external dromedary chroot defects, see `_family`; kernel-checked
-as jail_unnormalised_*_witness) are committed known findings.  NEW (pending triage):
-userdir-home-encoded-dotdot — a home directory whose NAME carries a percent-escape that decodes
-to '..' (server-side configuration) lets '~/...' leave the served directory
-(userdir_percent_home_witness; _expand_userdirs does not escape the expanded OS path).
+as jail_unnormalised_*_witness) are committed known findings.  The breakout through a home
+directory whose NAME carries a percent-escape decoding to '..' (found by this check, theorem
+userdir_percent_home_witness for the former code) was fixed by `fix:` commit 489056d (the model variant
+expandUserdirsFx is selected by a probe); it has no family any more either.
+
+Two connections (SmartTCPServer serves every connection in its own thread; request.jail_info is a
+threading.local): `jail_concurrency_cases` runs deterministic schedules over two socket-pair connections,
+each served by its own SmartServerSocketStreamMedium thread: request A (initialize_ex_1.16 stacked on an
+outside file:// URL, a test verb opening several inside / outside URLs, open_branchV3) is parked just
+before the jail check of its k-th control-directory open (pre_open hooks around breezy's own jail hook)
+while connection B runs 0-2 ordinary requests to completion (their setup_jail / teardown_jail run on the
+other thread), for every k.  Oracle: every open that passes the jail hook during a request is on/below
+the jail root, and A's reply equals its reply when served alone.  T2: the verdicts of all opens of the
+observed trace against the per-thread model (jtrace tl).  Theorems jail_other_threads_never_change_mine,
+jail_verdicts_are_per_connection, jail_holds_during_request (all traces, any number of threads),
+jail_shared_state_witness (one shared slot: B's teardown unjails A).  Gate timeouts raise InfraError (exit 2).
 
 Mutants this was built against (scratch worktrees; all semantic ones caught):
   M1 translate_client_path without the joinpath normalisation      -> T2 (10140 mismatches; the chroot
@@ -107,6 +119,14 @@ Mutants this was built against (scratch worktrees; all semantic ones caught):
      OUTSIDE (plain VIOLATION)
   H1 slicing rewritten with str.removeprefix (harmless)            -> clean (same result as the unchanged tree)
   H2 RenameRequest translates rel_to first, DeleteRequest inlined (harmless) -> clean
+  M16 request.jail_info a plain object instead of threading.local (stored seed C31b)  -> oracle: two connections,
+      A = initialize_ex_1.16 stacked on file://<W>/evil/ parked before its open #1 while B runs BzrDir.open_2.1 to
+      completion: the outside control directory passes the jail check
+  M17 _pre_open_hook prefers a module-level "most recently set" jail (setup_jail writes it, teardown_jail clears it only
+      if it is its own) -> oracle, only in a CROSSED schedule with B's connection served below home/: A's reply
+      ('jailbreak' for the inside branch) differs from its reply when served alone
+  M18 teardown_jail clears the slots of all threads -> oracle (as M16)
+  H3 _pre_open_hook reads the thread-local slot through `jail_info.__dict__.get` (harmless) -> clean
   with the proposed fix applied (unescape first) the vfs-* families disappear and T2 selects model variant fx.
 """
 import contextlib
@@ -137,6 +157,9 @@ THEOREMS = [
     "jail_default_allows_all", "jail_url_inside_served", "jail_allows_inside",
     "jail_unnormalised_encoded_slash_witness", "jail_unnormalised_double_encoded_witness",
     "jail_unnormalised_dotdot_witness", "jail_invalid_utf8_sibling_witness",
+    # the jail state is per connection-handler thread
+    "jail_other_threads_never_change_mine", "jail_verdicts_are_per_connection", "jail_holds_during_request",
+    "jail_shared_state_witness",
 ]
 RULE = ("case = (root client path, client path bytes); client paths are all strings of <= N tokens over the "
         "11-token alphabet of the property (enumerated completely, deduplicated as byte strings), plus random "
@@ -864,19 +887,9 @@ def t2_paths(ctx, s, cps, fx, deep=True, all_rels=False):
 
 
 def _home_family(s, cp):
-    """finding family for a server whose user table has a home directory that is not mild, computed from the
-    concrete input: the client path names a user (`~` / `~name`) whose home directory, as a path below the
-    base path, contains a percent escape that decodes (in one or two passes) to a '..' segment"""
-    from urllib.parse import unquote_to_bytes as uq
-    if not s.kind.startswith("homes:") or not cp.lstrip(b"/").startswith(b"~"):
-        return None
-    name = cp.lstrip(b"/")[1:].split(b"/", 1)[0].decode("utf-8", "replace")
-    home = s.table.get(name)
-    if home is None or s.base is None or not home.startswith(s.base):
-        return None
-    below = home[len(s.base):].encode()
-    if b"%" in below and (b".." in uq(below).split(b"/") or b".." in uq(uq(below)).split(b"/")):
-        return "userdir-home-encoded-dotdot"
+    """the breakout through a home directory whose name carries a percent escape (former family
+    userdir-home-encoded-dotdot) was repaired by fix: commit 489056d (_expand_userdirs unescapes, expands and
+    escapes the remainder): it has no family any more and is a plain VIOLATION if it returns"""
     return None
 
 
@@ -1478,6 +1491,306 @@ def jail_cases(ctx, sa, sb):
 
 # --------------------------------------------------------------------------
 
+# --------------------------------------------------------------------------
+# the jail while two connections are served concurrently (one thread per connection, as SmartTCPServer does)
+
+class _Sched:
+    """deterministic two-connection schedules.  Every connection is a socket pair served by its own
+    SmartServerSocketStreamMedium thread.  Two pre_open hooks bracket breezy's own jail hook: `gate` (runs
+    BEFORE the jail check: logs the attempt and parks the thread when the schedule says so) and `passed`
+    (runs AFTER it: only reached when the jail let the transport through).  setup_jail / teardown_jail are
+    wrapped by recorders that call the original.  The log is the observed trace of jail operations."""
+
+    GATE, PASSED, JAIL = "verif C31: gate", "verif C31: passed", "checking server jail"
+    TIMEOUT = 60.0
+
+    def __init__(self, s):
+        from breezy import controldir
+        from breezy.bzr.smart import request as R
+        self.s, self.R = s, R
+        self.hooks = controldir.ControlDir.hooks
+        self.lock = threading.Lock()
+        self.log = []                 # ["s", label, [bases]] | ["t", label] | ["o", label, base, passed]
+        self.park = {}                # label -> (k, reached event, resume event): park at the k-th open attempt
+        self.attempts = {}            # label -> number of open attempts so far
+        self.tl = threading.local()
+        self.conns = []
+
+    def label(self):
+        n = threading.current_thread().name
+        return n[9:] if n.startswith("C31-conn-") else None
+
+    # -- hooks and recorders
+    def gate(self, transport):
+        lab = self.label()
+        if lab is None:
+            return
+        with self.lock:
+            ent = ["o", lab, transport.base, False]
+            self.log.append(ent)
+            self.attempts[lab] = k = self.attempts.get(lab, 0) + 1
+        self.tl.ent = ent
+        p = self.park.get(lab)
+        if p and p[0] == k:
+            p[1].set()
+            if not p[2].wait(self.TIMEOUT):
+                raise env.InfraError("C31 scheduler: connection %s was never resumed" % lab)
+
+    def passed(self, transport):
+        if self.label() is not None:
+            self.tl.ent[3] = True
+
+    def __enter__(self):
+        R, sch = self.R, self
+        self.hooks.uninstall_named_hook("pre_open", self.JAIL)
+        self.hooks.install_named_hook("pre_open", self.gate, self.GATE)
+        R._install_hook()             # the jail check, exactly as breezy installs it
+        self.hooks.install_named_hook("pre_open", self.passed, self.PASSED)
+        self.orig = (R.SmartServerRequest.setup_jail, R.SmartServerRequest.teardown_jail)
+
+        def setup_jail(req):
+            sch.orig[0](req)
+            lab = sch.label()
+            if lab is not None:
+                with sch.lock:
+                    sch.log.append(["s", lab, [req._jail_root.base]])
+
+        def teardown_jail(req):
+            sch.orig[1](req)
+            lab = sch.label()
+            if lab is not None:
+                with sch.lock:
+                    sch.log.append(["t", lab])
+        R.SmartServerRequest.setup_jail, R.SmartServerRequest.teardown_jail = setup_jail, teardown_jail
+        return self
+
+    def __exit__(self, *a):
+        R = self.R
+        R.SmartServerRequest.setup_jail, R.SmartServerRequest.teardown_jail = self.orig
+        for name in (self.GATE, self.PASSED):
+            with contextlib.suppress(Exception):
+                self.hooks.uninstall_named_hook("pre_open", name)
+        for c in self.conns:
+            self.close(c)
+        with contextlib.suppress(Exception):
+            R.jail_info.transports = None
+
+    # -- connections
+    def connect(self, lab, bt=None):
+        from breezy.bzr.smart import medium, client
+        a, b = socket.socketpair()
+        srv = medium.SmartServerSocketStreamMedium(b, bt if bt is not None else self.s.bt, self.s.rcp, timeout=self.TIMEOUT)
+        th = threading.Thread(target=srv.serve, daemon=True, name="C31-conn-" + lab)
+        th.start()
+        cm = medium.SmartClientAlreadyConnectedSocketMedium("bzr://verif/", a)
+        c = dict(lab=lab, sock=a, th=th, cm=cm, cl=client._SmartClient(cm))
+        self.conns.append(c)
+        return c
+
+    def close(self, c):
+        with contextlib.suppress(Exception):
+            c["cm"].disconnect()
+        with contextlib.suppress(Exception):
+            c["sock"].close()
+        c["th"].join(self.TIMEOUT)
+        if c["th"].is_alive():
+            raise env.InfraError("C31 scheduler: server thread of connection %s did not end" % c["lab"])
+        if c in self.conns:
+            self.conns.remove(c)
+
+    def call(self, c, verb, args):
+        from dromedary import errors
+        try:
+            return ("ok",) + tuple(c["cl"].call(verb, *args))
+        except errors.ErrorFromSmartServer as e:
+            return ("err",) + tuple(e.error_tuple)
+        except Exception as e:
+            return ("EXC", type(e).__name__.encode())
+
+    def _wait_parked(self, lab, th):
+        reached = self.park[lab][1]
+        while not reached.wait(0.02):
+            if not th.is_alive():
+                break                 # the request finished without reaching that open
+        return reached.is_set()
+
+    def run(self, a_req, k, b_reqs, kb=0, b_bt=None):
+        """request A on connection A is parked at its k-th control-directory open attempt (0 = never) while the
+        requests `b_reqs` run on connection B (served on `b_bt` if given) one after the other to completion;
+        if `kb` > 0 the LAST request of B is itself parked at its kb-th open, A then runs to its end first
+        (crossed).  -> (A's reply, B's replies, log, was A parked, was B parked)"""
+        self.log, self.attempts, self.park = [], {}, {}
+        ca = self.connect("A")
+        out = {}
+        if k:
+            self.park["A"] = (k, threading.Event(), threading.Event())
+        ta = threading.Thread(target=lambda: out.__setitem__("A", self.call(ca, *a_req)), daemon=True)
+        ta.start()
+        b_out, tb, cb = [], None, None
+        parked = parked_b = False
+        if k:
+            parked = self._wait_parked("A", ta)
+            if parked and b_reqs:
+                cb = self.connect("B", b_bt)
+                for r in (b_reqs[:-1] if kb else b_reqs):
+                    b_out.append(self.call(cb, *r))
+                if kb:
+                    self.attempts["B"] = 0
+                    self.park["B"] = (kb, threading.Event(), threading.Event())
+                    tb = threading.Thread(target=lambda: out.__setitem__("B", self.call(cb, *b_reqs[-1])), daemon=True)
+                    tb.start()
+                    parked_b = self._wait_parked("B", tb)
+            self.park["A"][2].set()
+        ta.join(self.TIMEOUT)
+        if ta.is_alive():
+            raise env.InfraError("C31 scheduler: request A got no reply")
+        if tb is not None:
+            self.park["B"][2].set()
+            tb.join(self.TIMEOUT)
+            if tb.is_alive():
+                raise env.InfraError("C31 scheduler: request B got no reply")
+            b_out.append(out.get("B"))
+        if cb is not None:
+            self.close(cb)
+        self.close(ca)
+        return out.get("A"), b_out, [list(e) for e in self.log], parked, parked_b
+
+
+def _jtrace(log, tids):
+    ops = []
+    for e in log:
+        t = tids[e[1]]
+        if e[0] == "s":
+            ops.append("s%d:%s" % (t, "+".join(hexb(b.encode()) for b in e[2]) or "-"))
+        elif e[0] == "t":
+            ops.append("t%d" % t)
+        else:
+            ops.append("o%d:%s" % (t, hexb(e[2].encode())))
+    return ";".join(ops)
+
+
+def jail_concurrency_cases(ctx, s, rng, thorough=False):
+    """schedule family: request A is parked inside its handler, just before the jail check of its k-th
+    control-directory open, while another connection's requests run to completion (setup_jail ... teardown_jail
+    on the other thread); then A goes on.  For every k the request has, several A and B requests.
+    Oracle (no model): (1) every control-directory open that passes the jail hook during a request is on or
+    below the jail root (the backing transport's base) — whatever the other connection did meanwhile;
+    (2) A's reply is the reply it gets when served alone.  T2: the verdicts of all opens in the observed trace
+    against the per-thread jail model (driver op jtrace tl)."""
+    from breezy.bzr import bzrdir as _bd, groupcompress_repo
+    from breezy.bzr.smart import request as R
+    from breezy import transport as T, urlutils
+    w, P = s.world, s.prefix
+    fmt, rfmt = _bd.BzrDirMetaFormat1().network_name(), groupcompress_repo.RepositoryFormat2a().network_name()
+
+    class OpenUrls(R.SmartServerRequest):
+        """opens a control directory at each URL in turn (errors other than the jail's are skipped)"""
+
+        def do(self, *urls):
+            from breezy import errors
+            got = []
+            for u in urls:
+                try:
+                    d = _bd.BzrDir.open_from_transport(T.get_transport_from_url(u.decode("utf-8")))
+                    got.append(b"opened")
+                    del d
+                except errors.JailBreak:
+                    got.append(b"jailbreak")
+                except Exception as e:
+                    got.append(type(e).__name__.encode())
+            return R.SuccessfulSmartServerResponse(tuple(got))
+
+    out_urls = [urlutils.local_path_to_url(w.W + "/evil") + "/", urlutils.local_path_to_url(w.W) + "/",
+                urlutils.local_path_to_url(w.W + "/a") + "/"]
+    counter = [0]
+
+    def init_stacked(url):
+        counter[0] += 1
+        return (b"BzrDirFormat.initialize_ex_1.16", (fmt, b"zz-new%d" % counter[0], b"False", b"False", b"False",
+                                                     url.encode(), b"", rfmt, b"False", b"False"))
+    a_reqs = [
+        ("init-stacked-on-outside", lambda: init_stacked(out_urls[0])),
+        ("init-stacked-on-outside-parent", lambda: init_stacked(out_urls[1])),
+        ("open-inside-then-outside", lambda: (b"C31.open_urls", ((P + "a/").encode(), out_urls[0].encode()))),
+        ("open-outside-twice-then-inside", lambda: (b"C31.open_urls", (out_urls[2].encode(), out_urls[0].encode(), (P + "a/").encode()))),
+        ("open-inside-by-file-url", lambda: (b"C31.open_urls", (urlutils.local_path_to_url(w.root + "/a").encode() + b"/",))),
+        ("open-branch-inside", lambda: (b"BzrDir.open_branchV3", (b"a",))),
+    ]
+    b_pool = [(b"BzrDir.open_2.1", (b"a",)), (b"hello", ()), (b"has", (b"f",)), (b"BzrDir.find_repositoryV3", (b"a",)),
+              (b"C31.open_urls", ((P + "a/").encode(),)), (b"Branch.last_revision_info", (b"a",)),
+              (b"C31.open_urls", ((P + "a/").encode(), out_urls[0].encode(), (P + "home/").encode()))]
+    # (requests of B, park B's last request at its kb-th open (crossed schedule), B's connection is served below home/)
+    b_plans = [([b_pool[0]], 0, False), ([b_pool[1]], 0, False), ([b_pool[2]], 0, False), ([b_pool[4], b_pool[3]], 0, False),
+               ([b_pool[5], b_pool[0]], 0, False), ([], 0, False),
+               ([b_pool[6]], 1, False), ([b_pool[6]], 2, False), ([b_pool[0], b_pool[6]], 3, False),
+               ([b_pool[4]], 0, True), ([b_pool[6]], 1, True), ([b_pool[6]], 2, True)]
+    sub_bt = s.bt.clone("home")
+    R.request_handlers.register(b"C31.open_urls", OpenUrls, "verif test verb")
+    cases, lines, outs = [], [], []
+    canon = lambda r: None if r is None else tuple(re.sub(rb"zz-new\d+", b"zz-new", x) if isinstance(x, bytes) else x for x in r)
+    try:
+        with _Sched(s) as sch:
+            # what B's requests answer when B is alone (per backing transport)
+            b_solo = {}
+            for bl, kb, sub in b_plans:
+                for r in bl:
+                    if (r, sub) not in b_solo:
+                        cb = sch.connect("B", sub_bt if sub else None)
+                        b_solo[(r, sub)] = sch.call(cb, *r)
+                        sch.close(cb)
+            for name, mk in a_reqs:
+                solo, _, log0, _, _ = sch.run(mk(), 0, [])
+                n_opens = sum(1 for e in log0 if e[0] == "o")
+                ks = list(range(1, n_opens + 1))
+                if not thorough and len(ks) > 4:
+                    ks = sorted(rng.sample(ks[:-1], 3) + [ks[-1]])
+                runs = [(0, ([], 0, False), solo, [], log0, False, False)]
+                for k in ks:
+                    plans = b_plans if thorough else [b_plans[0]] + rng.sample(b_plans[1:6], 1) + rng.sample(b_plans[6:9], 1) + \
+                        rng.sample(b_plans[9:], 1)
+                    for plan in plans:
+                        ra, rb, log, parked, parked_b = sch.run(mk(), k, plan[0], plan[1], sub_bt if plan[2] else None)
+                        runs.append((k, plan, ra, rb, log, parked, parked_b))
+                for k, (bl, kb, sub), ra, rb, log, parked, parked_b in runs:
+                    sched = dict(A=name, park_A_before_open=k, B_requests=[v.decode() for v, _ in bl], park_B_last_before_open=kb,
+                                 B_served_below="home/" if sub else "", A_parked=parked, B_parked=parked_b)
+                    trace = [[e[0], e[1]] + ([e[2].replace(P, "P:").replace(w.W, "<W>"), e[3]] if e[0] == "o" else
+                                             [[x.replace(P, "P:") for x in e[2]]] if e[0] == "s" else []) for e in log]
+                    case = dict(op="jail-concurrent", cfg=s.kind, schedule=sched, trace=trace)
+                    ctx.case(case, k > 0)
+                    ctx.count("jail-concurrent:%s:%s" % (name, "crossed" if parked_b else "interleaved" if parked else "solo"))
+                    ctx.count("jail-concurrent:opens-in-A:%d" % min(sum(1 for e in log if e[0] == "o" and e[1] == "A"), 9))
+                    how = ("A parked before its open #%d; meanwhile connection B%s ran %s%s" % (
+                        k, " (served below home/)" if sub else "", [v.decode() for v, _ in bl],
+                        ", the last one parked before its open #%d until A had finished" % kb if parked_b else " to completion"))
+                    # oracle 1: nothing outside the connection's jail root passes the hook during a request
+                    roots = {"A": s.bt.base, "B": sub_bt.base if sub else s.bt.base}
+                    for e in log:
+                        if e[0] == "o" and e[3] and not e[2].startswith(roots[e[1]]):
+                            ctx.violation(case, "two connections: while a request on connection %s was being served, the control "
+                                          "directory %s OUTSIDE its jail (%s) passed the jail check and was opened (A = %s; schedule: %s)"
+                                          % (e[1], e[2].replace(w.W, "<W>").replace(P, "P:"), roots[e[1]].replace(P, "P:"), name, how))
+                            break
+                    # oracle 2: a reply does not depend on what another connection does meanwhile
+                    if canon(ra) != canon(solo):
+                        ctx.violation(case, "two connections: the reply to request %s is %r, and %r when A is served alone (schedule: %s)"
+                                      % (name, ra, solo, how))
+                    for r, got in zip(bl, rb):
+                        if canon(got) != canon(b_solo[(r, sub)]):
+                            ctx.violation(case, "two connections: the reply to B's request %s is %r, and %r when B is served alone "
+                                          "(A = %s; schedule: %s)" % (r[0].decode(), got, b_solo[(r, sub)], name, how))
+                            break
+                    ctx.traces += 1
+                    cases.append(case)
+                    lines.append("jtrace tl %s" % (_jtrace(log, {"A": 0, "B": 1}) or "-"))
+                    outs.append(",".join("%d%s" % ({"A": 0, "B": 1}[e[1]], "T" if e[3] else "F") for e in log if e[0] == "o") or "-")
+    finally:
+        R.request_handlers.remove(b"C31.open_urls")
+        for ww in (w,):
+            put_back(ww, sorted(world_changes(ww)))
+    ctx.diff(cases, lines, outs)
+
+
 def run(ctx, n_exh=None, n_deep=None, n_verbs=None):
     from breezy.bzr.smart import vfs  # noqa
     rng = ctx.rng
@@ -1594,6 +1907,8 @@ def run(ctx, n_exh=None, n_deep=None, n_verbs=None):
     t0 = time.time()
     jail_cases(ctx, sa[CONFIGS[0]], sb[CONFIGS[0]])
     jail_cases(ctx, sa[CONFIGS[3]], sb[CONFIGS[3]])
+    jail_concurrency_cases(ctx, sa[CONFIGS[0]], rng, True)
+    jail_concurrency_cases(ctx, sa[CONFIGS[3]], rng, True)
     jurls = gen_jail_urls(rng, ctx.pick(150, 3000))
     ctx.extra["domain"].update(jail_urls=len(jurls), jail_roots=JAIL_ROOTS)
     jail_url_cases(ctx, sa[CONFIGS[0]], jurls)
@@ -1614,6 +1929,9 @@ def replay(ctx, case):
     out = dict(case=case)
     if case.get("op") == "jail-url":
         jail_url_cases(ctx, sa_, [case["url"]])
+    elif case.get("op") == "jail-concurrent":
+        # the schedule family is deterministic: re-run all of it (every park point, every B list)
+        jail_concurrency_cases(ctx, sa_, ctx.rng, thorough=True)
     elif case.get("op", "").startswith("jail"):
         jail_cases(ctx, sa_, sb_)
     else:
